@@ -576,6 +576,16 @@ def templates():
         right, _k2 = p.fresh((m, q_), rk)
         if not hasattr(left, "qtype") and not hasattr(right, "qtype"):
             left, _k1 = p.fresh((n, m), "act8")
+        v = p.rng.random()
+        try:
+            if v < 0.2 and lk in ("act8", "acte4", "plain"):
+                left = p.fresh((n, 2 * m), lk)[0][:, :m]  # a range of columns: dense rows, larger row stride
+            elif v < 0.35 and rk in ("act8", "acte4", "plain"):
+                right = p.fresh((m, 2 * q_), rk)[0][:, q_:]
+            elif v < 0.45 and lk in ("act8", "acte4", "plain"):
+                left = p.fresh((1, m), lk)[0].expand(n, m)
+        except Exception:
+            pass
         c = p.rng.integers(3)
         if c == 0:
             return lambda: torch.mm(left, right)
